@@ -150,7 +150,7 @@ def find_omega_wedge(g_w, twoth, wedge):
     for i in range(2):
         b = -sintth * np.sin(eta[i])
         somega = (b*g_w[0] - a*g_w[1])/(a*a + b*b)
-        comega = (g_w[0] - b*somega)/a
+        comega = (a*g_w[0] + b*g_w[1])/(a*a + b*b)
         
         omega.append(np.arctan2(somega, comega))
         if omega[i] > np.pi:
